@@ -7,3 +7,4 @@ pub use crate::event::verif as event;
 pub use crate::record_store::verif as record_store;
 pub use crate::replication_fetcher::verif as replication_fetcher;
 pub use crate::cmd::verif as cmd;
+pub use crate::driver::verif as driver;
